@@ -66,9 +66,9 @@ def run(ctx):
     inputs = inputs_of(beh.behaviours)
     rnd = random.Random(ctx.seed)
     rnd.shuffle(inputs)
-    take = inputs[: (6000 if th else 500)]
+    take = inputs[: (3000 if th else 500)]
     res, out, rc = ctx.go_test("internal/data_model", "TestVerifC07", inp=take,
-                               env={"VERIF_NRANDOM": 3000 if th else 250, "VERIF_NSEEDS": 4 if th else 2}, timeout=1500)
+                               env={"VERIF_NRANDOM": 2000 if th else 250, "VERIF_NSEEDS": 4 if th else 2}, timeout=1500)
     res = ctx.need_result(res, out, rc, "TestVerifC07")
     for k, v in REAL.items():
         if res.get("consts", {}).get(k) != v:
